@@ -10,7 +10,7 @@
  * @link lib/common/zstd_common.c lib/common/error_private.c
  * @mem native
  * @cbmc --unwind 80
- * @timeout 300
+ * @timeout 900
  * @memgb 6
  */
 #include "v.h"
